@@ -64,10 +64,17 @@ func replaceSuffixes(inputLines *bytes.Buffer, suffixReplacements map[string]str
 	scanner := bufio.NewScanner(inputLines)
 	scanner.Split(bufio.ScanLines)
 	skipRegex := regexp.MustCompile(`^(?:##!|\s*$)`)
+	// apply the pairs in a fixed order: the replacement of one pair can end in the key of another
+	matches := make([]string, 0, len(suffixReplacements))
+	for match := range suffixReplacements {
+		matches = append(matches, match)
+	}
+	sort.Strings(matches)
 	for scanner.Scan() {
 		entry := scanner.Text()
 		if !skipRegex.MatchString(entry) {
-			for match, replacement := range suffixReplacements {
+			for _, match := range matches {
+				replacement := suffixReplacements[match]
 				var found bool
 				entry, found = strings.CutSuffix(entry, match)
 				if found && replacement != `""` {
